@@ -45,6 +45,8 @@ func childClient() {
 	s.OnEvent("l", func(v []sio.Binary) {})
 	s.OnEvent("g", func(v []any, w any) {})
 	s.OnEvent("n", func() {})
+	s.OnEvent("u", func(v upload) {})
+	s.OnEvent("v", func(v *upload) {})
 	s.OnEvent("canary", func(n int, ack func(int)) { ack(n) })
 	s.Connect()
 	io.Copy(io.Discard, os.Stdin)
